@@ -180,7 +180,8 @@ namespace vf
       J ridges = J::arr();
       J r = J::arr();
       const double d = f.sph ? 10.0 : 800e3;
-      const double x0 = m.kernel[0] + (ch.flip() ? -d : d);
+      // beside the feature, or (25%) straight through it: points of the feature then sit exactly on the ridge (age zero)
+      const double x0 = ch.chance(25) ? m.kernel[0] : m.kernel[0] + (ch.flip() ? -d : d);
       const int n = static_cast<int>(ch.range(2, 3));
       const double slant = ch.chance(50) ? (f.sph ? ch.lattice(-6, 6, 0.25) : ch.lattice(-500e3, 500e3, 1e3)) : 0.0;
       for (int i = 0; i < n; ++i)
@@ -397,6 +398,25 @@ namespace vf
       else { m.dmin = ch.chance(70) ? 0 : ch.lattice(0, 50e3, 5e3); m.dmax = m.dmin + ch.lattice(30e3, 300e3, 5e3); }
       if (m.dmin != 0 || ch.flip()) feat["min depth"] = m.dmin;
       feat["max depth"] = m.dmax;
+      if (o.depth_surfaces && ch.chance(40))
+        {
+          // max depth given at points: the bare value for every corner, then values at some corners (sometimes pinching
+          // out to the min depth) and at interior points; corners with a zero coordinate are left alone (listed finding C11)
+          J surf = J::arr();
+          surf.push(J::arr({J(m.dmax)}));
+          for (size_t i = 0; i < m.coords.size(); ++i)
+            if (ch.chance(30) && m.coords[i][0] != 0 && m.coords[i][1] != 0)
+              surf.push(J::arr({J(ch.chance(40) ? m.dmin : m.dmin + ch.lattice(0.1, 1.0, 0.1) * (m.dmax - m.dmin)), J::arr({jp(m.coords[i][0], m.coords[i][1])})}));
+          const int ni = static_cast<int>(ch.range(0, 3));
+          for (int i = 0; i < ni; ++i)
+            {
+              const size_t e = ch.index(m.coords.size());
+              const auto &v0 = m.coords[e], &v1 = m.coords[(e + 1) % m.coords.size()];
+              const double s = ch.real(0.1, 0.9), t = ch.real(0.1, 0.8);
+              surf.push(J::arr({J(m.dmin + ch.lattice(0.1, 1.0, 0.1) * (m.dmax - m.dmin)), J::arr({jp(c[0] + t * (v0[0] + s * (v1[0] - v0[0]) - c[0]), c[1] + t * (v0[1] + s * (v1[1] - v0[1]) - c[1]))})}));
+            }
+          if (surf.size() > 1) feat["max depth"] = surf;
+        }
       add_models(ch, f, o, m, feat);
       return feat;
     }
